@@ -118,7 +118,8 @@ impl Paths {
         let verif = std::env::var("VERIF_DIR").unwrap_or_else(|_| "/verif".into());
         let repo = std::env::var("VERIF_REPO").unwrap_or_else(|_| "/repo".into());
         Paths {
-            sim_bin: PathBuf::from(format!("{verif}/sim/target/x86_64-unknown-linux-gnu/release/cwe_checker_sim")),
+            // SIM_BIN: another build of the simulated CLI (e.g. coverage-instrumented, see tools/coverage.sh)
+            sim_bin: std::env::var("SIM_BIN").map(PathBuf::from).unwrap_or_else(|_| PathBuf::from(format!("{verif}/sim/target/x86_64-unknown-linux-gnu/release/cwe_checker_sim"))),
             envso: PathBuf::from(format!("{verif}/env/libsimenv.so")),
             config: PathBuf::from(format!("{repo}/src/config.json")),
             lkm_config: PathBuf::from(format!("{repo}/src/lkm_config.json")),
@@ -367,6 +368,9 @@ pub fn run_raw(wd: &WorkDir, paths: &Paths, argv: &[String], env: &Env) -> RunOu
         .stdin(Stdio::null())
         .stdout(Stdio::from(stdout))
         .stderr(Stdio::from(stderr));
+    if let Ok(p) = std::env::var("LLVM_PROFILE_FILE") {
+        cmd.env("LLVM_PROFILE_FILE", p);
+    }
     let mut child = cmd.spawn().expect("cannot spawn cwe_checker_sim");
     let t0 = std::time::Instant::now();
     let mut timed_out = false;
